@@ -137,7 +137,10 @@ def wide_histories(rng, tier, faults=True, pre_only=False):
                   {"op": "sc", "n": w + 1, "xs": kids[5:], "as": "list"},
                   {"op": "sp", "n": kids[-1], "v": None},
                   {"op": "sp", "n": kids[w // 2], "v": w + 1},
-                  {"op": "sp", "n": kids[0], "v": kids[-1]}]
+                  {"op": "sp", "n": kids[0], "v": kids[-1]},
+                  {"op": "sc", "n": w + 1, "xs": [kids[3], w + 3] + kids[10:] + ["x"], "as": "list"},
+                  {"op": "sc", "n": 0, "xs": [w + 2] + kids + [kids[4]], "as": "list"},
+                  {"op": "sc", "n": w + 1, "xs": kids[2:] + [w + 1], "as": "list"}]
         for f in finals:
             bases.append((n0, build, f, kids))
     logs = [None] * len(bases)
